@@ -2,7 +2,7 @@
    The specification's step (which the real code equals, C14_tie) is: one M1 fetch per opcode byte -- one for an
    unprefixed instruction, two for CB/ED/DD/FD forms, two or three for DDCB/FDCB (this project: three) -- each ticking
    R's low seven bits; operand fetches do not tick; no instruction other than LD I,A / LD R,A writes I or R. *)
-From Z80V Require Import Proofs.SpecFacts Proofs.SpecAll Proofs.Refresh Proofs.Iter.
+From Z80V Require Import Proofs.SpecFacts Proofs.SpecAll Proofs.Refresh Proofs.Iter Proofs.Halted.
 
 Theorem C14_tie : forall cpu, WF cpu -> Step cpu = spec_step impl_unspec cpu.
 Proof. exact Step_ok. Qed.
@@ -80,3 +80,16 @@ Print Assumptions C14_ticks.
 Theorem C14_generated_steps : forall n cpu, WF cpu -> iter n cpu = spec_iter impl_unspec n cpu.
 Proof. exact iter_ok. Qed.
 Print Assumptions C14_generated_steps.
+
+(* ---- "on every Step spent halted", for ANY number of Steps of the generated code: a CPU whose PC addresses a HALT
+   opcode, with no request pending, keeps every register, flag, flip-flop, the mode, I, SP, PC and memory (halted_same),
+   its R has made exactly n ticks (C14_ticks: bit 7 kept, low seven bits + n mod 128), the halted indication is set ---- *)
+Theorem C14_halted_steps : forall n cpu, WF cpu -> g_Memory cpu = UserMem -> g_Interrupt cpu = None ->
+  u8 (ram (g_W cpu) (g_PC cpu)) = 118 ->
+  let cpu' := iter n cpu in
+  halted_same cpu cpu' /\ g_IR_Lo cpu' = ticks n (g_IR_Lo cpu) /\ ((1 <= n)%nat -> g_HALT cpu' = true).
+Proof. exact halted_steps_gen. Qed.
+Print Assumptions C14_halted_steps.
+Example C14_halted_premises_hold :
+  WF halt_demo /\ g_Memory halt_demo = UserMem /\ g_Interrupt halt_demo = None /\ u8 (ram (g_W halt_demo) (g_PC halt_demo)) = 118.
+Proof. exact halt_demo_premises. Qed.
